@@ -74,7 +74,7 @@ CHECKS = {
                      "2-thread (and small 3-thread) semaphore scenarios and barriers with n<=3, g<=2 are additionally explored without a bound in explicit-state mode (abstract "
                      "state = scheduler state + call-site chains + semaphore value / barrier fields + ghost counters + the call log); the mutex barrier also gets one injected "
                      "spurious wake-up per execution.",
-                note="SC interleavings only; preemption bound 1 (quick) / 1-3 (thorough) for the bounded part; explicit-state mode relies on the stated state abstraction (checked: an abstract state reached with two different option sets is a hard error); TSan is not an oracle here (no race claim in C11)"),
+                note="SC interleavings only; preemption bound 1 (quick) / 1-3 (thorough) for the bounded part; the thorough scenario set runs in a plain -O2 build with asserts (process restarts after legal quiescent ends dominate the cost under ASan), the quick set under ASan in both tiers; explicit-state mode relies on the stated state abstraction (checked: an abstract state reached with two different option sets is a hard error); TSan is not an oracle here (no race claim in C11)"),
     "C05": dict(engine="venum", technique=E3, design="4/C05",
                 text="Every tuple of sorted sequences over 3 keys (k = 0..6 quick / 0..9 thorough, lengths 0..4/5 within total caps, plus dense and dominant-sequence "
                      "families), every length 0..total, every entry point {multiway_merge, stable_, _sentinels, stable_.._sentinels, multiway_merge_base} x "
